@@ -454,12 +454,15 @@ func (c *Classifier) multipleMatch(unknown string) *pq.Queue {
 	wg.Add(len(kvals))
 	for _, known := range kvals {
 		go func(known *knownValue) {
+			// The search set of a known value is built lazily by whichever
+			// call needs it first. Check and publish it under the write lock
+			// so that concurrent calls neither race on the field nor use a
+			// half-published set.
+			c.muValues.Lock()
 			if known.set == nil {
-				k := searchset.New(known.normalizedValue, searchset.DefaultGranularity)
-				c.muValues.Lock()
-				c.values[known.key].set = k
-				c.muValues.Unlock()
+				known.set = searchset.New(known.normalizedValue, searchset.DefaultGranularity)
 			}
+			c.muValues.Unlock()
 			m.findMatches(known)
 			wg.Done()
 		}(known)
